@@ -1,4 +1,4 @@
-(** Model of src/epd5in83_v2/mod.rs — STUB, not yet transcribed. *)
+(** Model of src/epd5in83_v2/mod.rs. *)
 From Coq Require Import List NArith Bool.
 From EPD Require Import Iface Ops Drv.Luts.
 Import ListNotations.
@@ -8,11 +8,91 @@ Open Scope m_scope.
 Module Epd5in83_v2.
 Definition WIDTH : N := 648.
 Definition HEIGHT : N := 480.
+Definition IS_BUSY_LOW := true.
+Definition NUM_DISPLAY_BITS : N := WIDTH * HEIGHT / 8.
 
-Definition init : M unit := ret tt.
+(** Color::get_byte_value *)
+Definition get_byte_value (c : N) : N := if c =? cWhite then 0xff else 0x00.
 
-Definition exec (k : N) (o : op) : option (M rval) := None.
+Definition wait_until_idle : M unit := wait_idle IS_BUSY_LOW.
+
+(** private helpers [command], [send_data] of the driver *)
+Definition command (c : N) : M unit := cmd c.
+Definition send_data (l : list N) : M unit := data l.
+
+Definition send_resolution : M unit :=
+  let w := WIDTH in
+  let h := HEIGHT in
+  command 0x61 ;;
+  send_data [u8 (shr w 8)] ;;
+  send_data [u8 w] ;;
+  send_data [u8 (shr h 8)] ;;
+  send_data [u8 h].
+
+Definition init : M unit :=
+  reset 2000 50 ;;
+  cmd_with_data 0x01 [0x07; 0x07; 0x3F; 0x3F] ;;
+  command 0x04 ;;
+  delay_us 5000 ;;
+  wait_until_idle ;;
+  cmd_with_data 0x00 [0x1F] ;;
+  send_resolution ;;
+  cmd_with_data 0x15 [0x00] ;;
+  cmd_with_data 0x50 [0x10; 0x07] ;;
+  cmd_with_data 0x60 [0x22] ;;
+  wait_until_idle.
+
+Definition sleep : M unit :=
+  wait_until_idle ;;
+  command 0x02 ;;
+  wait_until_idle ;;
+  cmd_with_data 0x07 [0xA5].
+
+Definition update_frame (k len : N) : M unit :=
+  wait_until_idle ;;
+  s <- get ;;
+  let color_value := get_byte_value (bg s) in
+  cmd 0x10 ;;
+  data_x_times color_value (WIDTH / 8 * HEIGHT) ;;
+  cmd_with_data_e 0x13 (DArg k 0 0 len).
+
+Definition update_partial_frame (k len x y w h : N) : M unit := panic.
+
+Definition display_frame : M unit :=
+  command 0x12 ;;
+  wait_until_idle.
+
+Definition update_and_display_frame (k len : N) : M unit :=
+  update_frame k len ;;
+  display_frame.
+
+Definition clear_frame : M unit :=
+  wait_until_idle ;;
+  command 0x10 ;;
+  data_x_times 0xFF NUM_DISPLAY_BITS ;;
+  command 0x13 ;;
+  data_x_times 0x00 NUM_DISPLAY_BITS.
+
+Definition set_lut (r : option N) : M unit := panic.
+
+Definition exec (k : N) (o : op) : option (M rval) :=
+  match o with
+  | OSleep => unit_ sleep
+  | OWakeUp => unit_ init
+  | OSetBg c => unit_ (modify (set_bg c))
+  | OGetBg => Some (s <- get ;; ret (RColor (bg s)))
+  | OWidth => Some (ret (RNum WIDTH))
+  | OHeight => Some (ret (RNum HEIGHT))
+  | OUpdateFrame len => unit_ (update_frame k len)
+  | OUpdatePartial len x y w h => unit_ (update_partial_frame k len x y w h)
+  | ODisplay => unit_ display_frame
+  | OUpdateAndDisplay len => unit_ (update_and_display_frame k len)
+  | OClear => unit_ clear_frame
+  | OSetLut r => unit_ (set_lut r)
+  | OWaitIdle => unit_ wait_until_idle
+  | _ => None
+  end.
 
 Definition drv (ft : feat) : driver :=
-  mkDriver WIDTH HEIGHT true d0 init exec.
+  mkDriver WIDTH HEIGHT true (mkD cWhite 0 false false 0 None) init exec.
 End Epd5in83_v2.
